@@ -1,4 +1,5 @@
 import Txtpp.Lemmas.Term
+import Txtpp.Lemmas.CollectInert
 /-!
 # Property C02 — includes always see the complete, fresh output of their dependencies
 
@@ -53,5 +54,30 @@ theorem finished_outputs_complete {C : Type} (w : World) (R : Sem C) (hR : Rende
     (out0 : File → OutState C) (x : WSt C) (h : WReach w R inputs out0 x) :
     ∀ f ∈ x.st.dm.fin, x.outp f = .complete (seqVal R x.st.dm.fin f) :=
   (wreach_inv w R hR inputs out0 x h).finOut
+
+/-- A command placed after an `after X` / `include X` line (X having a `.txtpp` source) never starts
+before X is complete — part 1: in the first pass, meeting such a line switches to collect mode
+without reading X, executing anything or producing output … -/
+theorem dependency_enters_collect {W : Type} (Wd : Txt.World W) (mode : Txt.Mode) (hm : mode ≠ .clean) (le : List Char)
+    (s : Txt.PpState W) (d : Txt.Directive) (dep : List Char)
+    (hty : d.ty = .include ∨ d.ty = .after) (hpm : s.pm = .firstExec)
+    (hdep : Wd.depOf s.w (d.args.headD []) = some (some dep)) :
+    Txt.execDirective Wd mode le s d = some ({ s with pm := .collect [dep] }, none) := by
+  have hdep' : Wd.depOf s.w (d.args.head?.getD []) = some (some dep) := by simpa using hdep
+  rcases hty with hty | hty <;> simp [Txt.execDirective, hm, hpm, hty, hdep']
+
+/-- … part 2: from then on every directive of that pass leaves the world and the tags untouched,
+produces no output and stays in collect mode; ordinary lines are not written. The pass ends with
+`hasDeps`, and the coordinator starts the second pass only after every dependency finished
+(`second_pass_after_deps`). -/
+theorem after_dependency_nothing_runs {W : Type} (Wd : Txt.World W) (mode : Txt.Mode) (hm : mode ≠ .clean) (le : List Char)
+    (s s' : Txt.PpState W) (d : Txt.Directive) (o : Option (List Char)) (hc : Txt.isCollect s.pm = true)
+    (h : Txt.execDirective Wd mode le s d = some (s', o)) :
+    s'.w = s.w ∧ s'.tags = s.tags ∧ o = none ∧ Txt.isCollect s'.pm = true :=
+  Txt.execDirective_collect Wd mode hm le s s' d o hc h
+
+theorem after_dependency_nothing_written {W : Type} (Wd : Txt.World W) (mode : Txt.Mode) (le : List Char)
+    (s : Txt.PpState W) (l : List Char) (hc : Txt.isCollect s.pm = true) :
+    (Txt.txtppSem Wd mode le).text s l = (s, none) := Txt.text_collect Wd mode le s l hc
 
 end C02
